@@ -255,6 +255,16 @@ def validate_traces(ctx, module, lines, sig_prefix, what, dfs=True, maxrej=5, si
 
 
 
+def confirm(ctx, sub, rp, args=None, env=None):
+    """V2: re-executes one candidate scenario alone; returns the failing verdict if it reproduces, else records it as unreproduced."""
+    again = ctx.run_harness(sub, [rp], args=args, env=env)
+    bad = [r for r in again if not r.get("ok", True)]
+    if bad:
+        return bad[0]
+    ctx.notes.setdefault("unreproduced_candidates", []).append({"scenario": rp})
+    return None
+
+
 def load_findings():
     p = os.path.join(VERIF, "known_findings.json")
     if not os.path.exists(p):
